@@ -10,6 +10,7 @@ package c16
 
 import (
 	"fmt"
+	"os"
 	"sort"
 	"strings"
 	"sync"
@@ -87,17 +88,32 @@ func run(r *evid.Run) {
 	r.Assume("the dimension grammar is t-way exhaustive (t=2 quick, t=3 thorough), not the full product of all features")
 	r.Assume("'the same configuration' is judged on the public accessors of the parsed objects (deep accessor dump); for v2 buf.yaml the TopLevelLintConfig/TopLevelBreakingConfig accessors are informational because hoisting identical per-module sections is the writer's documented freedom; the per-module effective configs are compared strictly")
 
-	runBufYAML(r, t)
-	if r.Expired() {
-		return
+	// VERIF_C16_PHASES (development aid): comma separated subset of yaml,lock,work,gen,migrate
+	phases := map[string]bool{}
+	for _, p := range strings.Split(os.Getenv("VERIF_C16_PHASES"), ",") {
+		if p != "" {
+			phases[p] = true
+		}
 	}
-	runBufLock(r, t)
-	runBufWork(r)
-	runBufGen(r, t)
-	if r.Expired() {
-		return
+	on := func(p string) bool { return len(phases) == 0 || phases[p] }
+	if len(phases) > 0 {
+		r.Incomplete("only phases " + os.Getenv("VERIF_C16_PHASES") + " were run (VERIF_C16_PHASES)")
 	}
-	runMigration(r)
+	if on("yaml") {
+		runBufYAML(r, t)
+	}
+	if on("lock") && !r.Expired() {
+		runBufLock(r, t)
+	}
+	if on("work") && !r.Expired() {
+		runBufWork(r)
+	}
+	if on("gen") && !r.Expired() {
+		runBufGen(r, t)
+	}
+	if on("migrate") && !r.Expired() {
+		runMigration(r)
+	}
 }
 
 // ---------------------------------------------------------------------------------------------
